@@ -6,10 +6,12 @@ One *scenario* is (prepare, op, observe):
     op()        the write under test (runs with the injector armed)
     observe()   a JSON-able observation of the resulting tree (injector off)
 
-``sweep`` first records the fault-free run (numbering the mutating events), then
-re-executes the scenario once per plan of ``faults.plans_for`` -- a crash just
-before every mutating event, and a torn write for every open-for-write event --
-each time from a freshly prepared pre-state, and returns every observation.
+The check first records the fault-free run (numbering the mutating events and the
+write()/writelines() calls), then re-executes the scenario once per plan of ``plans`` --
+a crash just before every mutating event, a crash at the first Python line after every
+rename/link/symlink (engine plan ``crash_after``), a torn write for every open-for-write
+event, and every write call failing half-way with ENOSPC resp. KeyboardInterrupt while the
+process stays alive -- each time from a freshly prepared pre-state.
 
 A *sentinel* mutating event (``os.utime`` of a file next to, not inside, the data
 directory) is appended to op(): a write path that consists of one single
@@ -77,11 +79,108 @@ def _with_sentinel(scr, op):
     return fn
 
 
+# -- write faults: the n-th write()/writelines() on a file the code opened for writing below the scope fails --------
+#
+# A crash cannot show "an exception during the write commits a partial file" (close()/rename in a finally: or in a
+# contextlib.closing()): that needs the *code's own error path* to run.  The seam is builtins.open: every file opened
+# for writing below the scratch root is handed out as a thin proxy that counts write calls and, when armed, writes
+# half of the n-th call's data and raises OSError(ENOSPC) or KeyboardInterrupt.  The process stays alive.
+
+WRITE_FAULTS = ("write_enospc", "write_kbi")
+
+
+class _WriteProxy:
+    def __init__(self, fobj, ctl):
+        object.__setattr__(self, "_f", fobj)
+        object.__setattr__(self, "_ctl", ctl)
+
+    def __getattr__(self, name):
+        return getattr(self._f, name)
+
+    def __setattr__(self, name, value):
+        setattr(self._f, name, value)
+
+    def __enter__(self):
+        return self
+
+    def __exit__(self, *exc):
+        self._f.close()
+
+    def __iter__(self):
+        return iter(self._f)
+
+    def _hit(self, data):
+        ctl = self._ctl
+        idx = ctl.nwrites
+        ctl.nwrites += 1
+        if ctl.fail_at is not None and idx == ctl.fail_at and not ctl.fired:
+            ctl.fired = True
+            self._f.write(data[: len(data) // 2])
+            if ctl.kind == "write_kbi":
+                raise KeyboardInterrupt("injected during write")
+            import errno
+
+            raise OSError(errno.ENOSPC, os.strerror(errno.ENOSPC) + " (injected)")
+
+    def write(self, data):
+        self._hit(data)
+        return self._f.write(data)
+
+    def writelines(self, lines):
+        lines = list(lines)
+        if lines:
+            self._hit(lines[0][:0].join(lines))
+        else:
+            self._hit("")
+        return self._f.writelines(lines)
+
+
+class write_seam:
+    """context manager: builtins.open hands out counting/failing proxies for writes below root"""
+
+    def __init__(self, root, fail_at=None, kind=None):
+        self.root = os.path.realpath(root)
+        self.fail_at = fail_at
+        self.kind = kind
+        self.nwrites = 0
+        self.fired = False
+
+    def __enter__(self):
+        import builtins
+
+        self._real = real = builtins.open
+        ctl = self
+
+        def _open(file, mode="r", *a, **kw):
+            f = real(file, mode, *a, **kw)
+            try:
+                if isinstance(mode, str) and any(c in mode for c in "wxa+") and isinstance(file, (str, bytes, os.PathLike)):
+                    p = os.fspath(file)
+                    if isinstance(p, bytes):
+                        p = p.decode("utf8", "replace")
+                    if os.path.abspath(p).startswith(ctl.root + "/"):
+                        return _WriteProxy(f, ctl)
+            except Exception:
+                pass
+            return f
+
+        builtins.open = _open
+        return self
+
+    def __exit__(self, *exc):
+        import builtins
+
+        builtins.open = self._real
+
+
 def record(scr, prepare, op):
-    """fault-free run: (status, value, events) -- events exclude the sentinel"""
+    """fault-free run: (status, value, events) -- events exclude the sentinel. Also numbers the write()/writelines()
+    calls on files opened for writing below the scope (scr.nwrites)."""
     scr.reset()
     prepare()
-    status, value, events = scr.inj.record(_with_sentinel(scr, op))
+    with write_seam(scr.root) as seam:
+        status, value, events = scr.inj.record(_with_sentinel(scr, op))
+    scr.nwrites = seam.nwrites
     if status == "ok":
         assert events and events[-1][0] == "os.utime", events
         events = events[:-1]
@@ -89,27 +188,77 @@ def record(scr, prepare, op):
 
 
 def run_plan(scr, prepare, op, plan):
+    """-> (status, value, events); status 'crashed' (crash/torn/crash_after fired), 'faulted' (write fault fired;
+    the code's own error handling ran), else 'ok'/'raised' = the plan did not fire"""
     scr.reset()
     prepare()
+    if plan and plan[0] in WRITE_FAULTS:
+        import gc
+
+        status, value = "ok", None
+        with write_seam(scr.root, fail_at=plan[1], kind=plan[0]) as seam:
+            try:
+                value = op()
+            except KeyboardInterrupt as e:
+                status, value = "interrupted", e
+            except Exception as e:
+                status, value = "raised", e
+        value = repr(value)
+        gc.collect()  # the process is alive: pending __del__ clean-up is legitimate
+        return ("faulted" if seam.fired else status), value, []
     status, value = scr.inj.run(_with_sentinel(scr, op), tuple(plan) if plan else None)
     return status, value, list(scr.inj.events)
 
 
-def plans(events):
-    """crash before each event of the write path and before the sentinel (= after the complete
-    write); torn write at each open-for-write event (the sentinel is its 'next event' if last)."""
+def rerun(op):
+    """a later fault-free run of the same operation (recovery); errors of the operation itself are tolerated,
+    the caller judges the resulting state"""
+    import gc
+
+    try:
+        op()
+    except Exception:
+        pass
+    gc.collect()
+
+
+def plans(events, nwrites=0):
+    """crash before each event of the write path and before the sentinel (= after the complete write); crash right
+    after each publishing operation (rename/link/symlink: the first Python line after it returns); torn write at each
+    open-for-write event (the sentinel is its 'next event' if last); for each write call index of the fault-free run,
+    that call failing half-way with ENOSPC and with KeyboardInterrupt."""
     out = []
     n = len(events)
     for k in range(n + 1):
         out.append(("crash", k))
     for k in range(n):
+        if events[k][0] in ("os.rename", "os.link", "os.symlink"):
+            out.append(("crash_after", k))
+    for k in range(n):
         if faults.is_open_event(events[k]):
             out.append(("torn", k))
+    for k in range(nwrites):
+        for kind in WRITE_FAULTS:
+            out.append((kind, k))
     return out
+
+
+def fired(status):
+    return status in ("crashed", "faulted")
+
+
+def plan_class(events, plan):
+    """short name of the fault for outcome classes"""
+    if plan[0] in WRITE_FAULTS:
+        return plan[0]
+    ev = events[plan[1]][0] if plan[1] < len(events) else "end"
+    return f"{plan[0]}@{ev}"
 
 
 def describe(events, plan):
     kind, k = plan[0], plan[1]
+    if kind in WRITE_FAULTS:
+        return f"{kind}: write call #{k} fails half-way with {'ENOSPC' if kind == 'write_enospc' else 'KeyboardInterrupt'}"
     if k < len(events):
         ev = events[k]
         at = scrub(f"{ev[0]}({', '.join(str(a) for a in ev[1])})")
